@@ -52,12 +52,10 @@ pub trait ChainStore: Send + Sync + Sized {
             return Some(raw_block.into_view());
         }
         let body = self.get_block_body(h);
-        let uncles = self
-            .get_block_uncles(h)
-            .expect("block uncles must be stored");
-        let proposals = self
-            .get_block_proposal_txs_ids(h)
-            .expect("block proposal_ids must be stored");
+        // The header may come from the read cache while the block has just been deleted
+        // (e.g. a block which failed verification): such a block is not stored any more.
+        let uncles = self.get_block_uncles(h)?;
+        let proposals = self.get_block_proposal_txs_ids(h)?;
         let extension_opt = self.get_block_extension(h);
 
         let block = if let Some(extension) = extension_opt {
